@@ -22,6 +22,35 @@ CHECKS = {
              "'any valid order gives the adjoint'. No axioms.",
         technique="Coq proof by potential-function invariant over the sweep + DFS order spec; exact-integer correspondence evaluated by vm_compute",
     ),
+    "C07": dict(
+        text="Machine-checked proofs (Coq) over the history-level model Model/GraphP.v, for EVERY history of operations / backward / clear_graph / null_grad: after L.backward() L and every tensor "
+             "upstream of it (through creators not cleared before) has no creator and no recorded consumers; every tensor whose gradient changed is among them; gradients outside the traversal are "
+             "untouched; a view op keeps gradients, a non-view op drops exactly those of its inputs; each pass computes the adjoint on its own (nothing accumulates across passes). Tie: histories run on /repo and on the "
+             "model (exact gradients and flags after every backward), reference-counting liveness with gc disabled vs the model's strong-reference closure (creator edges + Tensor._base), and a bit-identical "
+             "3x repetition oracle on float programs.",
+        design_ref="DESIGN.md 5 (C07)",
+        note="Partial: 'freed by reference counting alone' is decided by the liveness correspondence (CPython refcounting assumed), not by a theorem about a heap model; placeholders of in-place updates are not in "
+             "these histories; bit-identical repetition is an implementation-side test. Trusted: Coq kernel, harness/exactops.py translation, prog_impl.py runner. No axioms.",
+        technique="Coq proofs (induction over clear_graph's recursion and over histories) + exact-integer history correspondence + weakref liveness correspondence",
+    ),
+    "C09": dict(
+        text="Machine-checked proofs (Coq) over Model/GraphP.v: exact characterisation of when backward raises InvalidBackprop (some processed tensor has a non-constant input with an empty consumer set); when it "
+             "returns normally the stored gradients are the adjoint of the graph as the code sees it. The property oracle 'raise, or exactly the gradients of the computation as recorded' is evaluated with the proved model on "
+             "every backward call of every generated history; failures are attributed to the known finding only if the decidable predicate stale_refill (a cleared tensor in L's traversal was re-used) holds.",
+        design_ref="DESIGN.md 5 (C09)",
+        note="The full statement is refuted on the unchanged tree (known findings stale_refill, einsum_backward_single_use); what is proved is detection + exactness w.r.t. the effective graph; the partial theorem "
+             "'no stale refill -> raise or exact as recorded' is being added (Proofs/StaleP.v). In-place updates are not in these histories. No axioms.",
+        technique="Coq proof (iff characterisation of the staleness check, adjoint theorem) + exact-integer history correspondence + model-evaluated property oracle",
+    ),
+    "C10": dict(
+        text="Machine-checked proofs (Coq): the constant-flag decision rules (integer/bool always constant, constant=False raises, float default, op result rule with override, non-real dtypes rejected when tracking) on the "
+             "transcribed decision functions; along EVERY history no constant tensor ever holds a gradient; a constant is a cut for forward tangents (never transmits). Tie: the complete decision lattice (constructors, "
+             "operations with all input-flag combinations, reshape/sum/copy/astype, tracking on/off) compared with the model in Coq; exact-integer programs with random flags vs Model/GraphP.v; implementation oracles "
+             "(no constant exposes .grad; replacing constant tensors by arrays changes nothing).",
+        design_ref="DESIGN.md 5 (C10)",
+        note="In-place targets keeping their flag is checked under C04/C05. Known findings: constant copy keeps grad (pinned by a test), clip without bounds ignores constant=. Trusted: Coq kernel, harness. No axioms.",
+        technique="Coq proofs (finite case analysis + invariant over histories) + exhaustive lattice correspondence by vm_compute + differential oracle",
+    ),
     "C15": dict(
         text="Machine-checked proof (Coq) that in the model of ContextTracker and the three manager objects every with-block / decorated call, "
              "for ANY body (arbitrary nesting, re-entrant use, exceptions at any depth, turn_* calls), exits without error and restores the governed "
@@ -101,7 +130,7 @@ def main():
 
 
 # fix: commits in /repo (filled in as they are made)
-SOURCE_COMMITS = ["1caf915", "cac9d7b"]
+SOURCE_COMMITS = ["1caf915", "cac9d7b", "4b729bd"]
 
 if __name__ == "__main__":
     main()
